@@ -42,7 +42,7 @@ let choice_of = function [ "u" ] -> ChSuppress | _ -> ChSend
 (* one token -> (event option, failure that the token reports) *)
 let event_of_token (t : string) : gevent option * (int * cause) option =
   match String.split_on_char '.' t with
-  | [ "X" ] -> (Some GvCancel, None)
+  | [ "X0" ] | [ "X1" ] -> (None, None)
   | [ "E"; "ret" ] -> (None, None)
   | [ "E"; "c" ] -> (Some GvEngCtx, None)
   | [ "E"; p ] -> (Some (GvEngRecv (nat_of_int (int_of_string p))), None)
@@ -88,33 +88,72 @@ let predict (c : string) (obs : string) : string * string * bool =
       let of_ = split_blank obs in
       let toks = (match field of_ "T" with "" -> [] | s -> String.split_on_char ',' s) in
       let parsed = List.map event_of_token toks in
-      let events = List.filter_map fst parsed in
+      let arr = Array.of_list (List.combine toks parsed) in
+      let nt = Array.length arr in
+      let index_of t = let r = ref (-1) in Array.iteri (fun i (x, _) -> if !r < 0 && x = t then r := i) arr; !r in
+      let i0 = index_of "X0" in
+      let i1 = (let i = index_of "X1" in if i < 0 then i0 else i) in
+      let ret_idx = (let i = index_of "E.ret" in if i < 0 then nt else i) in
+      (* the step with which Engine.Run decided its result: the last E.* entry before E.ret *)
+      let d_idx = (let r = ref (-1) in
+                   for i = 0 to min (nt - 1) (ret_idx - 1) do
+                     let (t, _) = arr.(i) in
+                     if String.length t > 2 && String.sub t 0 2 = "E." then r := i
+                   done; !r) in
       (* number of instances each start loop started in this run: the StartRes of that pool *)
       let n_inst = Array.make npools 0 in
-      List.iter (fun ev -> match ev with
-        | GvPool (p, PvMsg (StartRes (n, _), _)) -> if int_of_nat p < npools then n_inst.(int_of_nat p) <- int_of_nat n
-        | _ -> ()) events;
+      Array.iter (fun (_, (ev, _)) -> match ev with
+        | Some (GvPool (p, PvMsg (StartRes (n, _), _))) -> if int_of_nat p < npools then n_inst.(int_of_nat p) <- int_of_nat n
+        | _ -> ()) arr;
       let cfg = List.map nat_of_int (Array.to_list n_inst) in
       let g0 = ginit cfg in
-      let pred =
-        match grun current cfg g0 events with
+      let r_obs = field of_ "R" in
+      (* The cancel takes effect somewhere between the X0 and X1 entries (cancel() is called in
+         between); Engine.Run logs its E.<p> entry before it looks at ctx.Done, so when X0 falls
+         between that entry and E.ret the cancel may also precede the look.  Every position of that
+         window is a legitimate reading of the log; the first one that the model accepts and that
+         reproduces the observed result is used (the first accepted one otherwise). *)
+      let events_with_cancel_at k =
+        let l = ref [] in
+        for i = nt - 1 downto 0 do
+          (match fst (snd arr.(i)) with Some ev -> l := ev :: !l | None -> ());
+          if i = k then l := GvCancel :: !l
+        done;
+        !l in
+      let candidates =
+        if i0 < 0 then [ -1 ]
+        else begin
+          let lo = if d_idx >= 0 && d_idx < i0 && i0 < ret_idx then d_idx else i0 in
+          let rec range a b = if a > b then [] else a :: range (a + 1) b in
+          (* k = position of the token before which the cancel is inserted *)
+          range i0 i1 @ (if lo < i0 then [ lo ] else [])
+        end in
+      let run_candidate k =
+        let events = if k < 0 then events_with_cancel_at (-1) else events_with_cancel_at k in
+        (events, grun current cfg g0 events) in
+      let describe (events, res) =
+        match res with
         | None ->
             let i = (match first_disabled current cfg g0 events O with Some i -> int_of_nat i | None -> -1) in
-            Printf.sprintf "REJECTED: event %d of the recorded history is not possible in the model" i
+            (false, "", Printf.sprintf "REJECTED: event %d of the recorded history is not possible in the model" i)
         | Some g ->
             let r = (match g.eng with None -> "hang" | Some er -> res_name er.er_res) in
-            Printf.sprintf "R=%s W=%s G=%s C=%d L=%d T=%s" r
+            (true, r, Printf.sprintf "R=%s W=%s G=%s C=%d L=%d T=%s" r
               (field_of_bool (wait_returns g)) (field_of_bool (terminal g && not (any_panicked g)))
-              (int_of_nat (total_created g)) (int_of_nat (total_closed g)) (String.concat "," toks) in
+              (int_of_nat (total_created g)) (int_of_nat (total_closed g)) (String.concat "," toks)) in
+      let results = List.map (fun k -> describe (run_candidate k)) candidates in
+      let pred =
+        match List.find_opt (fun (ok, r, _) -> ok && r = r_obs) results with
+        | Some (_, _, p) -> p
+        | None -> (match List.find_opt (fun (ok, _, _) -> ok) results with
+                   | Some (_, _, p) -> p
+                   | None -> (match results with (_, _, p) :: _ -> p | [] -> "no-candidate")) in
       (* inputs of the specification, read off the history up to the moment Run returned *)
-      let rec upto_ret acc = function
-        | [] -> List.rev acc
-        | (t, x) :: r -> if t = "E.ret" then List.rev acc else upto_ret ((t, x) :: acc) r in
-      let before = upto_ret [] (List.combine toks parsed) in
+      let before = Array.to_list (Array.sub arr 0 ret_idx) in
       let fails = List.filter_map (fun (_, (_, f)) -> f) before in
-      let cancelled = List.exists (fun (t, _) -> t = "X") before in
+      let sure_cancelled = i0 >= 0 && d_idx >= 0 && i1 < d_idx in
+      let sure_not_cancelled = i0 < 0 || i0 > ret_idx in
       let all_fails = List.filter_map (fun (_, f) -> f) parsed in
-      let r_obs = field of_ "R" in
       let o = { o_res = (match res_of_string r_obs with Some r -> r | None -> RNil);
                 o_wait = (field of_ "W" = "1"); o_settled = (field of_ "G" = "1");
                 o_created = nat_of_int (try int_of_string (field of_ "C") with _ -> 0);
@@ -137,7 +176,9 @@ let predict (c : string) (obs : string) : string * string * bool =
           end
         end
         else if res_of_string r_obs = None then "BAD:run-hang Engine.Run did not return (" ^ r_obs ^ ")"
-        else if not (spec_outcome_b fl cancelled o.o_res) then begin
+        else if not ((not sure_not_cancelled && spec_outcome_b fl true o.o_res) ||
+                     (not sure_cancelled && spec_outcome_b fl false o.o_res)) then begin
+          let cancelled = not sure_not_cancelled in
           let fs = String.concat "+" (List.sort_uniq compare (List.map (fun (_, c) -> cause_name c) fails)) in
           match o.o_res with
           | RNil -> "BAD:outcome:nil-despite-failure:" ^ fs
@@ -152,7 +193,7 @@ let predict (c : string) (obs : string) : string * string * bool =
         end
         else if not o.o_settled then "BAD:goroutines-left"
         else "ok" in
-      let nontrivial = all_fails <> [] || List.mem "X" toks || npools > 1 || cancel <> "none" in
+      let nontrivial = all_fails <> [] || List.mem "X0" toks || npools > 1 || cancel <> "none" in
       (pred, verdict, nontrivial)
   | _ -> ("unknown-case", "BAD:unknown-case", false)
 
